@@ -90,7 +90,7 @@ type gen struct {
 func (g *gen) num() string {
 	switch rapid.IntRange(0, 5).Draw(g.t, "numkind") {
 	case 0:
-		return strconv.Itoa(rapid.IntRange(0, 30).Draw(g.t, "ilit"))
+		return strconv.Itoa(rapid.OneOf(rapid.IntRange(0, 30), rapid.SampledFrom([]int{1000000, 2000000, 123456789})).Draw(g.t, "ilit"))
 	case 1:
 		return strconv.FormatFloat(float64(rapid.IntRange(1, 80).Draw(g.t, "flit"))/8, 'f', -1, 64)
 	case 2:
@@ -192,9 +192,21 @@ func TestExpressions(t *testing.T) {
 		}
 		embed := ""
 		typ := reflect.TypeOf(want)
+		// an integral float result (7/1, 2000000/2) may also land in an int field
+		if f, ok := want.(float64); ok && f == math.Trunc(f) && math.Abs(f) < 1<<53 && rapid.Bool().Draw(t, "intfield") {
+			typ = reflect.TypeOf(0)
+			want = int(f)
+		}
+		var embeddedFloat *float64
 		if rapid.IntRange(0, 4).Draw(t, "embedded") == 0 {
 			embed = "pre-"
 			typ = reflect.TypeOf("")
+			if f, ok := want.(float64); ok {
+				embeddedFloat = &f
+			}
+			if i, ok := want.(int); ok && reflect.TypeOf(want).Kind() == reflect.Int {
+				_ = i
+			}
 			want = embed + fmtAny(want)
 		}
 		tag := embed + "#{" + e + "}"
@@ -208,6 +220,15 @@ func TestExpressions(t *testing.T) {
 			t.Fatalf("C18: the expression evaluates (after substitution: %s = %#v) but start-up failed: %v\n%s", sub, want, out, desc)
 		}
 		got := obj.Elem().Field(0).Interface()
+		if embed != "" && embeddedFloat != nil {
+			// a float rendered inside text: any decimal spelling of the same number is fine
+			gs, _ := got.(string)
+			f, perr := strconv.ParseFloat(strings.TrimPrefix(gs, embed), 64)
+			if !strings.HasPrefix(gs, embed) || perr != nil || f != *embeddedFloat {
+				t.Fatalf("C18: field holds %q, expected %q followed by the number %v\n%s", gs, embed, *embeddedFloat, desc)
+			}
+			got = want
+		}
 		if !reflect.DeepEqual(got, want) {
 			t.Fatalf("C18: field holds %#v, direct evaluation of the substituted expression %q gives %#v\n%s", got, sub, want, desc)
 		}
